@@ -79,6 +79,16 @@ CLAIMED = {
         technique="symbolic execution of both descriptions + z3 equivalence queries (rewriter / rational normal form / NRA); "
                   "counterexamples replayed on the real pipeflow",
         design="4/C06"),
+    "C08": dict(
+        text="Weaker, stated form (global uniqueness on arbitrary networks is not decidable here): (noleak) with every unknown "
+             "havocked, a free-variable check on the terms of the real code shows that no start-value symbol (pn_bar; tfluid_k in "
+             "thermal stages / bidirectional mode) occurs in any residual, Jacobian entry or result; (unique) for a single branch "
+             "between fixed pressures z3/nlsat proves from the real kernel's residual F that F(a) = 0 and F(b) = 0 imply a = b "
+             "(liquid and gas, all regime pairs); (damping) every unknown of the real update is proved to be old - alpha * dx, so "
+             "the fixed points do not depend on alpha in (0, 1].",
+        technique="symbolic execution of the real code + free-variable analysis of the z3 terms, nlsat for single-branch "
+                  "uniqueness, term identities for the damped update",
+        design="4/C08"),
     "C09": dict(
         text="Two-run equivalences by bounded model checking of the real code, each decided by z3 for all parameter values "
              "per enumerated structure: reversed branches (same state in mirrored coordinates: residual rows and reported "
